@@ -338,6 +338,13 @@ pub fn c13(tier: Tier) -> PropSpec {
                 c13_pairs,
             ),
             Part::new("adf", tier.pick(1500, 20000), || sem_case(1, 6), c13_adf),
+            Part::with_shrink(
+                "cli-counter",
+                tier.pick(80, 1500),
+                300,
+                crate::props::cli::cli_counter_strategy,
+                crate::props::cli::cli_counter_check,
+            ),
         ],
     }
 }
